@@ -17,18 +17,25 @@ impl Ctx {
     pub fn new() -> Self {
         Ctx { fmts: HashMap::new(), runs: 0 }
     }
-    pub fn formatter(&mut self, cfg: &Cfg) -> &Formatter {
-        self.fmts.entry(cfg.clone()).or_insert_with(|| cfg.formatter())
+    /// building the formatter from a configuration is part of every run: a panic there is an abort of that run
+    pub fn formatter(&mut self, cfg: &Cfg) -> Result<&Formatter, String> {
+        if !self.fmts.contains_key(cfg) {
+            let f = guarded(|| cfg.formatter()).map_err(|p| format!("while building the formatter for {:?}: {p}", cfg))?;
+            self.fmts.insert(cfg.clone(), f);
+        }
+        Ok(&self.fmts[cfg])
     }
     pub fn run(&mut self, text: &str, cfg: &Cfg, cursors: &[u32], record: bool) -> Run {
         self.runs += 1;
-        let f = self.formatter(cfg);
-        let (out, cursors_out, events) = format_with(f, text, cursors, record);
+        let (out, cursors_out, events) = match self.formatter(cfg) {
+            Ok(f) => format_with(f, text, cursors, record),
+            Err(p) => (Err(p), vec![], vec![]),
+        };
         Run { text: text.to_owned(), cfg: cfg.clone(), cursors_in: cursors.to_vec(), out, cursors_out, events }
     }
     pub fn fmt(&mut self, text: &str, cfg: &Cfg) -> Result<String, String> {
         self.runs += 1;
-        let f = self.formatter(cfg);
+        let f = self.formatter(cfg)?;
         fmt(f, text)
     }
 }
